@@ -1311,12 +1311,6 @@ private:
     std::string str;
     while (_pos < _text.size() && _text[_pos] != '"')
     {
-      if (str.size() > _limits.stringLengthMax)
-      {
-        _error = "String length exceeds limit";
-        return false;
-      }
-
       if (_text[_pos] == '\\')
       {
         ++_pos;
@@ -1396,6 +1390,15 @@ private:
         str += _text[_pos];
       }
       ++_pos;
+
+      // Checked after every append so that exactly stringLengthMax bytes are
+      // the longest accepted string (checking before the append let one extra
+      // byte through).
+      if (str.size() > _limits.stringLengthMax)
+      {
+        _error = "String length exceeds limit";
+        return false;
+      }
     }
 
     if (_pos >= _text.size())
